@@ -2,7 +2,7 @@
 //! `tok.equiv` (proved sound for hard tokens) judges every (input, output) pair the real formatter
 //! produces over the same fixed, measured universe of cases as C02; the output must also parse
 //! (it is formatted once more and must not be reported as a parse error).
-use std::collections::HashSet;
+use std::collections::{HashMap, HashSet};
 use std::path::Path;
 use std::time::Duration;
 
@@ -35,21 +35,21 @@ pub fn validator_cfg(cfg: &[(String, String)]) -> String {
     )
 }
 
-pub fn load_dirty() -> HashSet<String> {
-    std::fs::read_to_string("/verif/corpus/c01_dirty.txt").unwrap_or_default().lines().filter(|l| !l.trim().is_empty() && !l.starts_with('#')).map(|l| l.split('\t').next().unwrap_or("").trim().to_string()).collect()
+/// corpus/c01_dirty.txt: element -> id of the known finding it shows (`?` = not examined yet)
+pub fn load_dirty() -> HashMap<String, String> {
+    let text = std::fs::read_to_string("corpus/c01_dirty.txt").or_else(|_| std::fs::read_to_string("/verif/corpus/c01_dirty.txt")).unwrap_or_default();
+    let mut m = HashMap::new();
+    for l in text.lines() {
+        if l.trim().is_empty() || l.starts_with('#') {
+            continue;
+        }
+        let cols: Vec<&str> = l.split('\t').collect();
+        let id = cols.first().map(|s| s.trim().to_string()).unwrap_or_default();
+        let class = cols.get(2).map(|s| s.trim().to_string()).filter(|s| !s.is_empty()).unwrap_or_else(|| "?".to_string());
+        m.insert(id, class);
+    }
+    m
 }
-
-/// rejected elements that were examined by hand and are genuine defects of the pinned tree: (element, probe id)
-const VERIFIED: &[(&str, &str)] = &[
-    ("tests/target/impl.rs|where_single_line=true", "C01-where-single-line"),
-    ("tests/target/comments-fn.rs|where_single_line=true", "C01-where-single-line"),
-    ("tests/target/cfg_attribute_in_where.rs|normalize_doc_attributes=true", "C01-doc-attr-swallows-bound"),
-    ("tests/target/issue-1096.rs|normalize_comments=true", "C01-normalize-comments-semicolon"),
-    ("tests/target/configs/indent_style/block_call.rs|use_try_shorthand=true", "C01-try-two-args"),
-    ("tests/source/configs/indent_style/block_call.rs|use_try_shorthand=true", "C01-try-two-args"),
-    ("tests/target/configs/reorder_impl_items/false.rs|reorder_impl_items=true", "C01-reorder-impl-items"),
-    ("tests/target/impls.rs|reorder_impl_items=true", "C01-reorder-impl-items"),
-];
 
 struct Judged {
     id: String,
@@ -57,6 +57,14 @@ struct Judged {
     detail: String,
     request: String,
     nontrivial: bool,
+    /// the two parse oracles (format the output once more / rustc_parse directly) give different answers
+    oracles_disagree: bool,
+}
+
+/// a run inside the property's quantifier: nothing was REPORTED (an internal macro-rewrite failure - the macro call is
+/// copied verbatim, nothing is printed, the exit status is 0 - is not a report)
+fn accepted(r: &pool::FmtOut) -> bool {
+    r.status == Status::Ok && !(r.flags[0] || r.flags[1] || r.flags[2] || r.flags[4] || r.flags[5] || r.flags[6])
 }
 
 /// formats every case, validates clean outputs with the Lean validator, re-parses them
@@ -67,7 +75,7 @@ fn judge(cases: &[Case], timeout: Duration) -> Vec<Judged> {
     let mut reqs = vec![];
     let mut jobs2 = vec![];
     for (i, r) in r1.iter().enumerate() {
-        if r.clean() && !r.out.is_empty() {
+        if accepted(r) && !r.out.is_empty() {
             idx.push(i);
             reqs.push(format!("tok.equiv {} {} {}", validator_cfg(&cases[i].cfg), encode_tokens(&cases[i].src, false), encode_tokens(&r.out, false)));
             jobs2.push(Job { src: r.out.clone(), cfg: cases[i].cfg.clone(), file_lines: None });
@@ -75,18 +83,29 @@ fn judge(cases: &[Case], timeout: Duration) -> Vec<Judged> {
     }
     let answers = run_model(&reqs, jobs());
     let r2 = pool::run_jobs(&jobs2, jobs(), timeout);
-    let mut res: Vec<Judged> = cases.iter().map(|c| Judged { id: c.id.clone(), verdict: "skipped", detail: String::new(), request: String::new(), nontrivial: false }).collect();
+    // second, independent parse oracle: the compiler's parser run directly (not through rustfmt) on input and output
+    let ed = |c: &Case| cfg_get(&c.cfg, "edition").unwrap_or("2015").to_string();
+    let mut texts: Vec<(String, String)> = vec![];
+    for &i in &idx {
+        texts.push((cases[i].src.clone(), ed(&cases[i])));
+        texts.push((r1[i].out.clone(), ed(&cases[i])));
+    }
+    let parsed = crate::astpp::parse_ok_batch(&texts, jobs());
+    let mut res: Vec<Judged> = cases.iter().map(|c| Judged { id: c.id.clone(), verdict: "skipped", detail: String::new(), request: String::new(), nontrivial: false, oracles_disagree: false }).collect();
     for (k, &i) in idx.iter().enumerate() {
         let a = &answers[k];
         let parses = match &r2[k].status { Status::Ok => !r2[k].flags[1], Status::Timeout | Status::Infra(_) => true, _ => false };
+        let (in_ok, out_ok) = (parsed[2 * k], parsed[2 * k + 1]);
         let (v, d) = if a != "ok" {
             ("not-equivalent", a.clone())
         } else if !parses {
             ("output-does-not-parse", format!("{:?}", r2[k].status))
+        } else if in_ok && !out_ok {
+            ("output-does-not-parse", "rustc_parse accepts the input and rejects the output".to_string())
         } else {
             ("ok", String::new())
         };
-        res[i] = Judged { id: cases[i].id.clone(), verdict: v, detail: d, request: reqs[k].clone(), nontrivial: r1[i].out != cases[i].src };
+        res[i] = Judged { id: cases[i].id.clone(), verdict: v, detail: d, request: reqs[k].clone(), nontrivial: r1[i].out != cases[i].src, oracles_disagree: in_ok && (parses != out_ok) };
     }
     res
 }
@@ -115,13 +134,86 @@ const EXCLUDED: &[(&str, &str)] = &[
     ("tests/source/5131_one.rs", "F6-C01"),
     ("tests/source/configs/reorder_impl_items/true.rs", "C01-reorder-impl-items"),
     ("tests/source/issue-2863.rs", "C01-reorder-impl-items"),
-    ("tests/source/configs/doc_comment_code_block_width/50.rs", "C01-doc-code"),
-    ("tests/source/configs/doc_comment_code_block_width/100_greater_max_width.rs", "C01-doc-code"),
 ];
 
 fn excluded(id: &str) -> Option<&'static str> {
     let fx = id.split('|').next().unwrap_or("");
     EXCLUDED.iter().find(|(f, _)| *f == fx).map(|(_, p)| *p)
+}
+
+/// the top-level items of a source text (cut after every `;` or `}` at bracket depth 0; attributes and comments stay
+/// with the item that follows them)
+fn top_level_items(src: &str) -> Vec<String> {
+    use rustc_lexer::TokenKind as K;
+    let mut items = vec![];
+    let mut depth = 0i32;
+    let mut start = 0usize;
+    let mut pos = 0usize;
+    for t in rustc_lexer::tokenize(src) {
+        pos += t.len as usize;
+        match t.kind {
+            K::OpenBrace | K::OpenParen | K::OpenBracket => depth += 1,
+            K::CloseBrace | K::CloseParen | K::CloseBracket => {
+                depth -= 1;
+                if depth == 0 && t.kind == K::CloseBrace {
+                    items.push(src[start..pos].to_string());
+                    start = pos;
+                }
+            }
+            K::Semi if depth == 0 => {
+                items.push(src[start..pos].to_string());
+                start = pos;
+            }
+            _ => {}
+        }
+    }
+    if !src[start..].trim().is_empty() {
+        items.push(src[start..].to_string());
+    }
+    items
+}
+
+/// the smallest top-level item (or, inside it, the smallest item of a `mod` / `impl` / `trait` / fn body) on which the
+/// case still fails with the same verdict
+fn shrink(c: &Case, verdict: &str, timeout: Duration) -> Option<String> {
+    let mut best: Option<String> = None;
+    let mut cur = c.src.clone();
+    for _round in 0..3 {
+        let parts: Vec<String> = if best.is_none() {
+            top_level_items(&cur)
+        } else {
+            // go one level down: the text between the first `{` and the last `}`
+            match (cur.find('{'), cur.rfind('}')) {
+                (Some(a), Some(b)) if a < b => top_level_items(&cur[a + 1..b]),
+                _ => vec![],
+            }
+        };
+        if parts.len() < 2 && best.is_none() {
+            return None;
+        }
+        let cases: Vec<Case> = parts.iter().enumerate().map(|(k, p)| Case { id: format!("{}#{}", c.id, k), src: format!("{}\n", p.trim()), cfg: c.cfg.clone() }).collect();
+        if cases.is_empty() {
+            break;
+        }
+        let js = judge(&cases, timeout);
+        let failing: Vec<&Case> = cases.iter().zip(js.iter()).filter(|(_, j)| j.verdict == verdict).map(|(c, _)| c).collect();
+        match failing.iter().min_by_key(|c| c.src.len()) {
+            Some(f) => {
+                best = Some(f.src.clone());
+                cur = f.src.clone();
+            }
+            None => break,
+        }
+    }
+    best
+}
+
+fn fam_of(id: &str) -> String {
+    if id.starts_with("gen:") { "generated".into() } else { family_of(id) }
+}
+
+fn all_with_excluded_ids(progs: &[corpus::Program]) -> Vec<Case> {
+    universe(progs)
 }
 
 pub fn run(tier: &str, seed: u64, out: &Path) -> i32 {
@@ -133,24 +225,67 @@ pub fn run(tier: &str, seed: u64, out: &Path) -> i32 {
     let dirty = load_dirty();
     o.count_n("universe", all.len() as u64);
     o.count_n("universe_dirty_listed", dirty.len() as u64);
+    o.count_n("universe_dirty_unexamined", dirty.values().filter(|c| *c == "?").count() as u64);
     let timeout = Duration::from_secs(if tier == "quick" { 10 } else { 30 });
     if tier == "sweep" {
-        for j in judge(&all, Duration::from_secs(30)) {
-            if j.verdict == "not-equivalent" || j.verdict == "output-does-not-parse" {
-                println!("{}\t{}\t{}", j.id, j.verdict, show_diff(&j.detail));
+        // C01_SWEEP = fix (fixture universe, default) | gen (generated family) | all
+        let which = std::env::var("C01_SWEEP").unwrap_or_else(|_| "fix".into());
+        let mut cases: Vec<Case> = vec![];
+        if which == "fix" || which == "all" {
+            cases.extend(all.iter().cloned());
+        }
+        if which == "gen" || which == "all" {
+            cases.extend(crate::c01gen::universe());
+        }
+        let mut n_ok = 0usize;
+        let mut n_skip = 0usize;
+        for chunk in cases.chunks(20000) {
+            for j in judge(chunk, Duration::from_secs(30)) {
+                if j.oracles_disagree {
+                    eprintln!("parse-oracles-disagree\t{}\t{}", j.id, j.verdict);
+                }
+                match j.verdict {
+                    "not-equivalent" | "output-does-not-parse" => println!("{}\t{}\t{}", j.id, j.verdict, show_diff(&j.detail)),
+                    "ok" => n_ok += 1,
+                    _ => n_skip += 1,
+                }
             }
+        }
+        eprintln!("sweep {}: {} cases, {} ok, {} skipped", which, cases.len(), n_ok, n_skip);
+        return 0;
+    }
+    if tier == "show" {
+        // C01_SHOW=<element id>[;<element id>…]: writes input, output and configuration of the elements to <out>/ and prints the verdicts
+        let want: Vec<String> = std::env::var("C01_SHOW").unwrap_or_default().split(';').map(|s| s.trim().to_string()).filter(|s| !s.is_empty()).collect();
+        let sel: Vec<Case> = all_with_excluded_ids(&progs).into_iter().chain(crate::c01gen::universe()).filter(|c| want.iter().any(|w| *w == c.id)).collect();
+        let jobs1: Vec<Job> = sel.iter().map(|c| Job { src: c.src.clone(), cfg: c.cfg.clone(), file_lines: None }).collect();
+        let r1 = pool::run_jobs(&jobs1, jobs(), Duration::from_secs(30));
+        let js = judge(&sel, Duration::from_secs(30));
+        let _ = std::fs::create_dir_all(out);
+        for (k, c) in sel.iter().enumerate() {
+            let stem = c.id.replace('/', "_").replace('|', "__");
+            let _ = std::fs::write(out.join(format!("{}.in.rs", stem)), &c.src);
+            let _ = std::fs::write(out.join(format!("{}.out.rs", stem)), &r1[k].out);
+            let _ = std::fs::write(out.join(format!("{}.toml", stem)), cfg_text(&c.cfg));
+            println!("{}\t{}\t{}\t[{}]\tstatus={:?} flags={:?}", c.id, js[k].verdict, show_diff(&js[k].detail), validator_cfg(&c.cfg), r1[k].status, r1[k].flags);
         }
         return 0;
     }
     let mut rng = Rng::new(seed ^ 0xc01);
-    let clean: Vec<&Case> = all.iter().filter(|c| !dirty.contains(&c.id)).collect();
+    let gen_all = crate::c01gen::universe();
+    o.count_n("universe_generated", gen_all.len() as u64);
+    let clean: Vec<&Case> = all.iter().filter(|c| !dirty.contains_key(&c.id)).collect();
+    let gen_clean: Vec<&Case> = gen_all.iter().filter(|c| !dirty.contains_key(&c.id)).collect();
     let chosen: Vec<Case> = if tier == "thorough" {
-        clean.iter().map(|c| (*c).clone()).collect()
+        clean.iter().chain(gen_clean.iter()).map(|c| (*c).clone()).collect()
     } else {
         let mut v: Vec<Case> = clean.iter().filter(|c| c.id.ends_with("|base")).map(|c| (*c).clone()).collect();
         let rest: Vec<&&Case> = clean.iter().filter(|c| !c.id.ends_with("|base")).collect();
-        for _ in 0..5000usize.min(rest.len()) {
+        for _ in 0..8000usize.min(rest.len()) {
             v.push((**rng.pick(&rest)).clone());
+        }
+        for _ in 0..24000usize.min(gen_clean.len()) {
+            v.push((**rng.pick(&gen_clean)).clone());
         }
         v
     };
@@ -158,7 +293,10 @@ pub fn run(tier: &str, seed: u64, out: &Path) -> i32 {
     let mut programs = 0u64;
     let mut distinct = HashSet::new();
     for (c, j) in chosen.iter().zip(res.iter()) {
-        o.count(&format!("{}:{}", family_of(&c.id), j.verdict));
+        o.count(&format!("{}:{}", fam_of(&c.id), j.verdict));
+        if j.oracles_disagree {
+            o.count("parse-oracles-disagree");
+        }
         match j.verdict {
             "ok" => {
                 programs += 1;
@@ -170,34 +308,34 @@ pub fn run(tier: &str, seed: u64, out: &Path) -> i32 {
             "not-equivalent" | "output-does-not-parse" => {
                 programs += 1;
                 o.direct_evals += 1;
-                o.direct_failures.push(json!({"sig": format!("c01:{}:{}", j.verdict, c.id), "what": format!("{}: {}", j.verdict, show_diff(&j.detail)), "case": c.id, "config": cfg_text(&c.cfg), "src": c.src, "request": j.request}));
+                // the first few failures are shrunk to the smallest item that still fails
+                let shrunk = if o.direct_failures.len() < 4 { shrink(c, j.verdict, timeout) } else { None };
+                o.direct_failures.push(json!({"sig": format!("c01:{}:{}", j.verdict, c.id), "what": format!("{}: {}", j.verdict, show_diff(&j.detail)), "case": c.id, "config": cfg_text(&c.cfg), "shrunk_src": shrunk, "src": c.src, "request": j.request}));
             }
             _ => {}
         }
     }
-    // listed dirty elements as probes grouped by family
-    let dirty_cases: Vec<Case> = all.iter().filter(|c| dirty.contains(&c.id)).cloned().collect();
+    // the enumerated dirty elements: probes grouped by the id of the defect they show
+    let dirty_cases: Vec<Case> = all.iter().chain(gen_all.iter()).filter(|c| dirty.contains_key(&c.id)).cloned().collect();
     let dres = judge(&dirty_cases, timeout);
     let mut by_family: std::collections::BTreeMap<String, (usize, usize, String)> = Default::default();
     for (c, j) in dirty_cases.iter().zip(dres.iter()) {
-        let pid = match VERIFIED.iter().find(|(e, _)| *e == c.id) {
-            Some((_, p)) => p.to_string(),
-            None => {
-                o.count(&format!("excluded-unclassified:{}", j.verdict));
-                continue;
-            }
-        };
+        let pid = dirty.get(&c.id).cloned().unwrap_or_else(|| "?".into());
+        if pid == "?" {
+            o.count(&format!("excluded-unclassified:{}", j.verdict));
+            continue;
+        }
         let e = by_family.entry(pid).or_insert((0, 0, String::new()));
         e.0 += 1;
         if j.verdict == "not-equivalent" || j.verdict == "output-does-not-parse" {
             e.1 += 1;
             if e.2.is_empty() {
-                e.2 = format!("{}: {}", c.id, show_diff(&j.detail));
+                e.2 = format!("{} [{}]: {}", c.id, j.verdict, show_diff(&j.detail));
             }
         }
     }
     for (fam, (n, bad, ex)) in by_family {
-        o.probes.push(json!({"id": fam, "fails": bad > 0, "what": format!("{} of {} verified elements rejected by the validator, e.g. {}", bad, n, ex)}));
+        o.probes.push(json!({"id": fam, "fails": bad > 0, "what": format!("{} of {} enumerated elements rejected, e.g. {}", bad, n, ex)}));
     }
     // fixtures excluded wholesale: one probe per known reason
     let eres = judge(&excluded_base, timeout);
@@ -222,7 +360,18 @@ pub fn run(tier: &str, seed: u64, out: &Path) -> i32 {
     if let Some(c) = chosen.last() {
         o.sample(json!({"case": c.id, "config": cfg_text(&c.cfg), "validator_cfg": validator_cfg(&c.cfg), "src_bytes": c.src.len()}));
     }
+    // the mechanism part: the literal rewriters against their Lean model (RF/Model/Literal.lean, RF/Props/C01lit.lean)
+    let mut rng_lit = Rng::new(seed ^ 0xc0111);
+    crate::c01lit::part(&mut o, &mut rng_lit, tier == "thorough");
     o.exhaustive = tier == "thorough";
     o.notes.push("universe as in C02 (fixtures x {base, 7 widths, every option single, 3 name-seeded re-layouts}); a program = one (source, configuration) whose first pass reported nothing; non-trivial = the output differs from the input".into());
+    // the list machinery and the string re-breaker (models RF/Model/Lists*, StringFmt): correspondence and Lean oracles
+    {
+        let th = tier == "thorough";
+        let mut r = Rng::new(seed ^ 0x1157);
+        crate::lists_corr::cases(&mut o, &mut r, th);
+        crate::lists_corr::struct_lit_cases(&mut o, &mut r, th);
+        crate::strings_corr::cases_c01(&mut o, &mut r, th);
+    }
     o.finish(out, jobs())
 }
